@@ -110,6 +110,19 @@ def prepare(cases, root):
             meas = '    /begin MEASUREMENT m1 "" UBYTE NO_COMPU_METHOD 1 1 0 255 /begin IF_DATA X 1 /end IF_DATA /end MEASUREMENT\n'
             text = HEAD + "    /begin A2ML\n" + directive(f) + "\n    /end A2ML\n" + meas + TAIL
             flat = HEAD + "    /begin A2ML\n" + AML + "\n    /end A2ML\n" + meas + TAIL
+        elif c["fam"] == "shared":
+            q = (lambda n: f'"{n}"') if c["quoted"] else (lambda n: n)
+            with open(os.path.join(src, "common.inc"), "w") as fh:
+                fh.write("ECU_ADDRESS 0x1234\n")
+            m = '    /begin MEASUREMENT m{i} "" UBYTE NO_COMPU_METHOD 1 1 0 255 {x} /end MEASUREMENT\n'
+            if c["diamond"]:
+                for n in ("a", "b"):
+                    with open(os.path.join(src, f"inc_{n}.a2l"), "w") as fh:
+                        fh.write(m.format(i=1 if n == "a" else 2, x=f"/include {q('common.inc')}"))
+                text = HEAD + f"    /include {q('inc_a.a2l')}\n    /include {q('inc_b.a2l')}\n" + TAIL
+            else:
+                text = HEAD + m.format(i=1, x=f"/include {q('common.inc')}") + m.format(i=2, x=f"/include {q('common.inc')}") + TAIL
+            flat = HEAD + m.format(i=1, x="ECU_ADDRESS 0x1234") + m.format(i=2, x="ECU_ADDRESS 0x1234") + TAIL
         elif c["fam"] == "ifdata":
             f = {"place": c["place"], "name": "ifdata.inc", "sep": c["sep"], "quoted": c["quoted"]}
             cdir = os.path.join(src, *relpath(f)[:-1])
@@ -237,7 +250,7 @@ def run(tier, selftest):
     fams = {}
     for c in cases:
         fams[c["fam"]] = fams.get(c["fam"], 0) + 1
-    if set(fams) != {"shape", "fault", "a2ml", "ifdata"}:
+    if set(fams) != {"shape", "fault", "a2ml", "ifdata", "shared"}:
         vlib.tool_error(f"vacuity: families {fams}")
     root = os.path.join(vlib.scratch(), "include_trees")
     os.makedirs(root)
